@@ -42,6 +42,10 @@ type TxnProg struct {
 	Ops         []Op   `json:"ops"`
 	End         string `json:"end"`                 // commit | rollback
 	CancelMs    int    `json:"cancel_ms,omitempty"` // the context passed to Commit is cancelled this long after the call (0: never)
+	// CommitWait: "lag" - the transaction must not commit below a timestamp an hour ahead of PD and may not wait for
+	// it (Commit fails with the commit-ts-lag error; on the async-commit / 1PC path before anything was prewritten);
+	// "near" - a constraint a few milliseconds ahead, which Commit waits for
+	CommitWait string `json:"commit_wait,omitempty"`
 }
 
 // TopoEvent is a scheduled topology change.
@@ -143,6 +147,9 @@ type GCPlan struct {
 	RangeLo     string `json:"range_lo"`
 	RangeHi     string `json:"range_hi"`
 	FailAt      int    `json:"fail_at"` // range task: the n-th handler call fails (-1: none)
+	// CancelInCall (with FailAt >= 0): the failure of that call is the caller's context being cancelled while the
+	// handler runs - the handler returns the context's error
+	CancelInCall bool `json:"cancel_in_call,omitempty"`
 	DelLo       string `json:"del_lo"`
 	DelHi       string `json:"del_hi"`
 	DeleteRange bool   `json:"delete_range"`
